@@ -12,7 +12,7 @@ pub const RULE: &str = "generated pairs and triples of epochs in any combination
 
 pub const ASSUMPTIONS: &[&str] = &[
     "ET/TDB operands in different scales are only generated more than 160 ns apart (100 ns of the statement + 60 ns margin for the model's and the library's conversion error); within one scale any separation is generated",
-    "TAI instants inside an inserted leap second are not paired with UTC operands (no UTC count denotes them); counted as skipped",
+    "an operand that is itself in UTC must have a UTC count; instants inside an inserted leap second held in another scale ARE compared with UTC operands (equality and order of instants are well defined); only conversions of such instants INTO UTC are skipped",
 ];
 
 #[derive(Clone, Debug, Serialize, Deserialize)]
@@ -65,9 +65,8 @@ fn operands(p: &Pair) -> Result<(i128, i128, Ordering), &'static str> {
     if (is_dyn(p.s1) || is_dyn(p.s2)) && p.delta.abs() <= 160 {
         return Err("ET/TDB cross-scale pair closer than 100 ns + margin (statement excludes)");
     }
-    if (p.s1 == S_UTC || p.s2 == S_UTC) && (from_tai(S_UTC, p.x).is_none() || from_tai(S_UTC, p.x + p.delta).is_none()) {
-        return Err("instant inside an inserted leap second has no UTC count");
-    }
+    // (only an operand that is itself in UTC needs a UTC count — from_tai below; an instant inside an inserted
+    // second held in another scale is a perfectly good instant and must compare chronologically with UTC epochs)
     let c1 = from_tai(p.s1, p.x).ok_or("instant inside an inserted leap second has no UTC count")?;
     let c2 = from_tai(p.s2, p.x + p.delta).ok_or("instant inside an inserted leap second has no UTC count")?;
     Ok((c1, c2, 0.cmp(&p.delta)))
@@ -109,14 +108,6 @@ fn pair_oracle(p: &Pair) -> Verdict {
     let a = Epoch::from_duration(mk(c1), SCALES[s1]);
     let b = Epoch::from_duration(mk(c2), SCALES[s2]);
     let what = format!("a = {} {} , b = {} {}", SCALE_NAMES[s1], c1, SCALE_NAMES[s2], c2);
-    if (s1 == S_UTC || s2 == S_UTC) && s1 != s2 {
-        let m1 = if is_dyn(s1) { 200 } else { 0 };
-        let m2 = if is_dyn(s2) { 200 } else { 0 };
-        let (t1, t2) = (to_tai(s1, c1), to_tai(s2, c2));
-        if [t1 - m1, t1 + m1, t2 - m2, t2 + m2].iter().any(|t| from_tai(S_UTC, *t).is_none()) {
-            return Verdict::Skip("ET/TDB operand within 200 ns of an inserted leap second compared with a UTC operand");
-        }
-    }
     if let Err(m) = check_pair(a, b, ord, &what) {
         return Verdict::Fail(m);
     }
@@ -149,17 +140,16 @@ fn pair_oracle(p: &Pair) -> Verdict {
     let s3 = p.s3;
     // any conversion into / out of ET/TDB costs a few ns: only assert beyond the statement's margin
     let third_ok = if is_dyn(s3) || is_dyn(s1) || is_dyn(s2) { p.delta.abs() > 160 } else { true };
-    // a comparison that involves a UTC operand needs a UTC count for BOTH instants; as soon as ET/TDB
-    // takes part as well (as an operand's scale or as the conversion target) both instants must also stay
-    // 200 ns clear of every inserted second: a conversion error of a few ns could otherwise move an operand
-    // into the inserted second, where the UTC count steps back by 1 s
-    let utc_involved = s1 == S_UTC || s2 == S_UTC || s3 == S_UTC;
+    // a conversion of an operand into UTC needs a UTC count for its instant; when ET/TDB takes part as well the
+    // instant must also stay 200 ns clear of every inserted second: a conversion error of a few ns could otherwise
+    // move it into the inserted second, where the UTC count steps back by 1 s
     let m = if is_dyn(s1) || is_dyn(s2) || is_dyn(s3) { 200 } else { 0 };
     let clear = |s: usize, c: i128| {
         let t = to_tai(s, c);
         from_tai(S_UTC, t - m).is_some() && from_tai(S_UTC, t).is_some() && from_tai(S_UTC, t + m).is_some()
     };
-    let third_allowed = !utc_involved || (clear(s1, c1) && clear(s2, c2));
+    // converting an operand INTO UTC needs a UTC count for its instant
+    let third_allowed = s3 != S_UTC || (clear(s1, c1) && clear(s2, c2));
     let exact_conv = |_s_from: usize, _c: i128| -> Option<()> {
         if third_allowed {
             Some(())
@@ -214,13 +204,6 @@ fn triple_strategy() -> BS<Triple> {
 fn triple_oracle(t: &Triple) -> Verdict {
     // any two operands in different scales with ET/TDB involved must be > 160 ns apart
     let mut eps = vec![];
-    if t.s.contains(&S_UTC) && (0..3).any(|i| {
-        let m = if is_dyn(t.s[i]) { 200 } else { 0 };
-        let inst = t.x + t.d[i];
-        from_tai(S_UTC, inst).is_none() || from_tai(S_UTC, inst - m).is_none() || from_tai(S_UTC, inst + m).is_none()
-    }) {
-        return Verdict::Skip("instant inside (or, for ET/TDB, within 200 ns of) an inserted leap second has no UTC count");
-    }
     for i in 0..3 {
         let inst = t.x + t.d[i];
         let Some(c) = from_tai(t.s[i], inst) else {
